@@ -84,6 +84,7 @@ class Scheduler:
         self.task_errors = []  # (thread name, fn name, repr(exc), traceback)
         self.stop_when = None
         self.cap_hit = False
+        self.debug = [] if __import__("os").environ.get("VERIF_DEBUG_POINTS") else None
         self.last_run = {}  # tid -> step index at which it last ran
         self.sig = []  # schedule signature: sequence of (tid) at task boundaries (for distinct-schedule counting)
 
@@ -160,6 +161,8 @@ class Scheduler:
                     raise ReplayDivergence(f"replay divergence at decision point {k}: choice {c} but only {len(en)} enabled")
                 self.choices.append(c)
                 self.points.append((len(en), c, tuple(t.tid for t in en)))
+                if self.debug is not None:
+                    self.debug.append([(t.name, _short(t.pending)) for t in en])
                 th = en[c]
             else:
                 th = en[0]
@@ -290,10 +293,11 @@ class VRLock:
 
     def acquire(self, blocking=True, timeout=-1):
         me = threading.get_ident()
-        if self.owner is not None and self.owner != me:
+        if SCHED is not None and SCHED.line_targets and self.owner != me:
+            SCHED.yield_point(("lock.try", id(self)))  # G2: a scheduling point before every acquire
+        # re-check after every hand-off: another thread may have taken the lock while this one was descheduled
+        while self.owner is not None and self.owner != me:
             SCHED.yield_point(("lock", id(self)), blocked_on=lambda: self.owner is None)
-        elif SCHED is not None and SCHED.line_targets:
-            SCHED.yield_point(("lock.free", id(self)))
         self.owner = me
         self.count += 1
         return True
